@@ -131,12 +131,16 @@ class PRow(list):
 class PSel(_Generic):
     """df.loc[mask, cols]"""
 
-    def __init__(self, t, mask, cols, single):
+    def __init__(self, t, mask, cols, single, label_pos=None):
         self.t, self.mask, self.cols, self.single = t, mask, cols, single
+        self.label_pos = label_pos  # df.loc[label, [cols]]: ONE row (a Series); its .values is the vector of that row's cells
         self.expr = None  # per-row expressions after an arithmetic operator (for `op=`)
 
     @property
     def values(self):
+        if self.label_pos is not None and not self.single:
+            from .npm import obj
+            return obj([SV(self.t.cols[c](self.label_pos)) for c in self.cols])
         return PVals(self.t, self.mask, [self.t.cols[c] for c in self.cols], scalar_rows=self.single)
 
     @property
@@ -179,14 +183,17 @@ class _PLoc:
                 raise Unsupported("mask of another table")
             return r, cols, single
         if isinstance(r, PLabel) and r.t is self.t:
+            self._label_pos = r.pos
             return PMask(self.t, lambda i, p=r.pos: i == p), cols, single
         raise Unsupported(f"loc row selector {type(r).__name__}")
 
     def __getitem__(self, k):
+        self._label_pos = None
         m, cols, single = self._key(k)
-        return PSel(self.t, m, cols, single)
+        return PSel(self.t, m, cols, single, label_pos=self._label_pos)
 
     def __setitem__(self, k, v):
+        self._label_pos = None
         m, cols, single = self._key(k)
         t = self.t
         if isinstance(v, PSel):
